@@ -190,6 +190,8 @@ def stepD (d : DOp) : M Unit :=
 def scenario : P (State × List DOp) := do
   expect "A"
   let aw ← nat
+  let ow ← tok                 -- endpoint owner: `-` = not in endpoint-owner mode, else the encoded name
+  let owner ← (if ow = "-" then pure none else match decStr ow with | some s => pure (some s) | none => failure : P (Option String))
   expect "W"
   let nw ← nat
   let ws ← watchers nw
@@ -199,7 +201,7 @@ def scenario : P (State × List DOp) := do
   expect "O"
   let no ← nat
   let ops ← rep no dop
-  let s := initState ws bs aw
+  let s := initState ws bs aw owner
   pure (s, ops)
 
 def runOps (s : State) : List DOp → List String
